@@ -169,16 +169,23 @@ chk(
 
 # additions of rounds 7 / 8 (appended to the level text of the check)
 ADDED = {
-    "C04": " X also ranges over every truncation of entries that repeat a field key, and half of the damaged documents draw their field keys from a small colliding pool.",
+    "C01": " Length-swept families: a repeated field key, entry key, @string key and a type name of every length 1..300 (1..1024 thorough), n repeated field keys, n aborted blocks in a row, a value of length n before an opener.",
+    "C03": " The size-scaled families include runs of n aborted blocks / strings and names of length n.",
+    "C04": " X also ranges over every truncation of entries that repeat a field key, and half of the damaged documents draw their field keys from a small colliding pool; two (D1, D2) pairs carry escaped braces on the line of D2's opener.",
+    "C07": " One document is written the way reference managers write files (encoding header, cross references, an error block as first holder of a key).",
+    "C09": " Structured families: n occurrences of one key for n <= 14 (entries, strings, interleaved), verbatim repetitions on one line or several, the k-th repetition of a field for k <= 11 (equal or different values, at the start / end / interleaved).",
+    "C14": " Protected groups include escaped braces before the inner ' and '.",
+    "C15": " A @string named like the month spelling (same / upper / lower case) may stand in the library; month numbers are zero-padded up to 255 digits.",
+    "C16": " Entries of the universe cross-reference one another, some libraries carry blank lines between consecutive blocks, one comment is the '% Encoding:' header.",
     "C06": " Libraries may hold one object several times (a comment added again, a Field listed twice), instances of application-defined subclasses of the model classes and every failed-block kind; failed raws with an ambiguous line count (empty, ending in a line break, CR / FF / U+2028 ...) must be emitted verbatim while the {n} of the comment is free for them; lists handed out by the library's views are trimmed by the caller before writing.",
-    "C08": " The universe holds instances of subclasses of Entry / String; after every step the lists / dict handed out by the views are emptied and read again; the list given to Library(blocks) and list arguments of add / remove stay unchanged and are never adopted.",
-    "C10": " The reuse law is continued for two more remove / add cycles in place on the same objects.",
-    "C11": " @string keys and bare values include BibTeX macro names with '-', ':' and '.'.",
+    "C08": " List arguments of every length up to 12 with a missing / repeated block at every position. The universe holds instances of subclasses of Entry / String; after every step the lists / dict handed out by the views are emptied and read again; the list given to Library(blocks) and list arguments of add / remove stay unchanged and are never adopted.",
+    "C10": " The reuse law is continued for two more remove / add cycles in place on the same objects; a third of the whole-entry cases hold a @string named like a field's content.",
+    "C11": " @string keys and bare values include BibTeX macro names with '-', ':' and '.'; structured families: a defined reference after n <= 12 undefined ones in one entry, up to 40 references per entry, month / journal / crossref field keys with month-named macros.",
     "C13": " The middleware sub-check includes entries that repeat a name-field key (each occurrence split on its own).",
     "C17": " Histories: for 2-3 fields (and at random) each case is repeated on an entry that went through earlier in-place field middlewares and whose field list was then put back (sort, edit, sort); every input Field object keeps its value.",
-    "C18": " Typed libraries include hand-built blocks and fields without start line / raw text, also on the failure paths.",
+    "C18": " Typed libraries include hand-built blocks and fields without start line / raw text, also on the failure paths; identifier-like values (DOI, ISBN, arXiv) under the field keys that carry them; an entry whose only failing string is its 13th.",
     "C19": " The Field handed to set_field (half of them without a start line) is compared with a snapshot taken before the call.",
-    "C20": " Stack arguments are handed over as list / tuple / one-shot iterator / generator / deque (annotated Iterable[Middleware]); a list the caller handed over holds the same objects afterwards; block probes also return deque / dict-values collections.",
+    "C20": " Stack arguments are handed over as list / tuple / one-shot iterator / generator / deque (annotated Iterable[Middleware]); a list the caller handed over holds the same objects afterwards; block probes also return deque / dict-values collections and sized / iterable subclasses of the model classes.",
 }
 
 ALL = ["C%02d" % i for i in range(1, 21)]
